@@ -296,6 +296,146 @@ def special_c14(prop, tier, seed, t0, chk):
 SPECIAL["c14"] = special_c14
 
 
+# ---------------------------------------------------------------- C15: lock-step continuation
+def parse_steps(logf, want=None):
+    """histories of a harness log as {id: (hist line, [step dict(op, res, xs, hs, st)])}"""
+    H, cur, step = {}, None, None
+    for l in open(logf, errors="replace"):
+        l = l.rstrip("\n")
+        if l.startswith("HIST"):
+            hid = parse_kv_line(l).get("id")
+            cur = (l, []) if (want is None or hid in want) else None
+            if cur:
+                H[hid] = cur
+            step = None
+        elif cur is None:
+            continue
+        elif l.startswith("OP "):
+            step = dict(op=l, res="", xs=[], hs=[], st=[]); cur[1].append(step)
+        elif step is None:
+            continue
+        elif l.startswith("RES "):
+            step["res"] = l
+        elif l.startswith("X "):
+            step["xs"].append(l)
+        elif l.startswith("H "):
+            step["hs"].append(l)
+        elif l.startswith("ST ") and step["res"]:
+            step["st"].append(l)          # lines after RES: the state after the operation
+        elif l == "END" or l.startswith("HEND"):
+            if l.startswith("HEND"):
+                cur = None
+            step = None if l.startswith("HEND") else step
+    return H
+
+def c15_lockstep(tier, seed, R):
+    """the property's own statement, on the implementation alone: every generated history that contains an accepted
+    GENESIS operation (export, validate, wipe the module store, import) is executed again WITHOUT those operations;
+    every later operation must give the same result, the same ordered transfers and hook calls and the same complete
+    module state and balances as in the original run"""
+    key = (repo_hash(), verif_hash(), tier, seed)
+    cp = os.path.join(BUILD, "cache", "c15-" + "-".join(str(k) for k in key) + ".json")
+    if os.path.exists(cp):
+        return json.load(open(cp))
+    t = time.time()
+    outdir = os.path.join(BUILD, "runs", "c15-" + "-".join(str(k) for k in key))
+    os.makedirs(outdir, exist_ok=True)
+    cap = 400 if tier == "quick" else 4000
+    picked, diffs, errors, compared_steps = [], [], [], 0
+    logs = sorted(glob.glob(os.path.join(R["outdir"], "shard*.log")))
+    jobs = []
+    for logf in logs:
+        if len(picked) >= cap:
+            break
+        if os.path.basename(logf) >= "shard80":      # full-application shards have another format
+            continue
+        H = parse_steps(logf)
+        sel = {}
+        for hid, (hl, steps) in H.items():
+            if "gen=extreme" in hl or "gen=replay" in hl or "gen=corpus" in hl:
+                continue
+            if any(st["op"].startswith("OP GENESIS") and st["res"].startswith("RES genok") for st in steps):
+                sel[hid] = (hl, steps)
+        if not sel:
+            continue
+        rp = os.path.join(outdir, os.path.basename(logf) + ".nogenesis.hist")
+        with open(rp, "w") as f:
+            for hid, (hl, steps) in sel.items():
+                f.write(hl + "\n")
+                for st in steps:
+                    if not st["op"].startswith("OP GENESIS"):
+                        f.write(st["op"] + "\n")
+        picked += list(sel)
+        jobs.append((logf, rp, sel))
+    from multiprocessing import Pool
+    cmds = ["timeout 3000 %s -replay %s -out %s > /dev/null 2>&1" % (os.path.join(BUILD, "harness"), rp, rp + ".log") for _, rp, _ in jobs]
+    with Pool(NPROC) as pool:
+        rcs = pool.map(os.system, cmds)
+    for (logf, rp, sel), rc in zip(jobs, rcs):
+        if rc != 0:
+            errors.append("harness -replay failed on %s rc=%s" % (rp, rc)); continue
+        # replayed histories come back in file order with ids 0..; match them by order
+        G = parse_steps(rp + ".log")
+        got = [G[k] for k in sorted(G, key=lambda x: int(x))]
+        for (hid, (hl, steps)), (_, rsteps) in zip(sel.items(), got):
+            orig = [st for st in steps if not st["op"].startswith("OP GENESIS")]
+            for i, (a, b) in enumerate(zip(orig, rsteps)):
+                compared_steps += 1
+                what = None
+                if a["op"] != b["op"]:
+                    what = ("op", a["op"], b["op"])
+                elif a["res"].split()[:2] != b["res"].split()[:2]:
+                    what = ("result", a["res"], b["res"])
+                elif a["xs"] != b["xs"]:
+                    what = ("transfers", "; ".join(a["xs"]), "; ".join(b["xs"]))
+                elif a["hs"] != b["hs"]:
+                    what = ("hooks", "; ".join(a["hs"]), "; ".join(b["hs"]))
+                elif sorted(a["st"]) != sorted(b["st"]):
+                    da = sorted(set(a["st"]) - set(b["st"])); db = sorted(set(b["st"]) - set(a["st"]))
+                    what = ("state", "; ".join(da[:4]), "; ".join(db[:4]))
+                if what:
+                    ops = [st["op"] for st in steps]
+                    # the history up to the diverging operation, GENESIS operations included
+                    n, upto = -1, []
+                    for st in steps:
+                        upto.append(st["op"])
+                        if not st["op"].startswith("OP GENESIS"):
+                            n += 1
+                            if n == i:
+                                break
+                    diffs.append(dict(hist=hid, shard=os.path.basename(logf), step=i, what=what[0], with_genesis=what[1][:600], without_genesis=what[2][:600],
+                                      meta=hl, history=[hl] + upto))
+                    break
+    D = dict(histories=len(picked), steps_compared=compared_steps, diffs=diffs[:20], ndiffs=len(diffs), errors=errors, seconds=round(time.time() - t, 1))
+    log("C15 lock-step: %d histories with a genesis round trip re-executed without it, %d steps compared, %d differences, %.1fs" % (len(picked), compared_steps, len(diffs), time.time() - t))
+    json.dump(D, open(cp, "w"))
+    return D
+
+def special_c15(prop, tier, seed, t0, chk):
+    R = chk.results(tier, seed)
+    C = chk.coq_status()
+    D = c15_lockstep(tier, seed, R)
+    if D["ndiffs"] or D["errors"]:
+        os.makedirs(os.path.join(BUILD, "replay"), exist_ok=True)
+        path = os.path.join(BUILD, "replay", "C15-lockstep.json")
+        item = (D["diffs"] or [{}])[0]
+        json.dump(dict(property="C15", kind="lockstep", what="the state re-imported from its own exported genesis does not evolve like the original: after the genesis round trip(s) in this history the last operation gives a different %s than in the same history without them" % item.get("what", "?"),
+                       item={k: v for k, v in item.items() if k != "history"}, errors=D["errors"], history=item.get("history", [])), open(path, "w"), indent=1)
+        write_evidence(prop, tier, seed, t0, R, C, max(1, D["ndiffs"]), note="lock-step continuation differs: %s" % str({k: v for k, v in item.items() if k != "history"})[:400])
+        print("VIOLATION property=C15 replay=%s" % path)
+        return 1
+    rc = verdict(prop, tier, seed, t0, R, C, chk.results, chk.write_replay, chk.write_broken, chk.load_known(), chk.known_match)
+    ep = os.path.join(VERIF, "evidence", "C15.json")
+    ev = json.load(open(ep))
+    ev["coverage"]["lockstep_continuation"] = dict(histories_with_genesis_round_trip_reexecuted_without_it=D["histories"], steps_compared=D["steps_compared"], differences=0,
+        compared="result class, ordered bank transfers, ordered hook calls, complete module state (auctions, bids, allow-lists, instalments, counters, matched counts, parameters) and balances after every operation following a round trip")
+    ev["wall_s"] = round(time.time() - t0, 1)
+    json.dump(ev, open(ep, "w"), indent=1)
+    return rc
+SPECIAL["c15"] = special_c15
+PROPS["C15"]["special"] = "c15"
+
+
 # ---------------------------------------------------------------- C20: the built binary
 def build_binary():
     out_bin = os.path.join(BUILD, "fundraisingd")
